@@ -183,6 +183,11 @@ EXTRA_FEATURES: dict[str, float] = {
     # node outputs that carry a (truthful) const_value: Constant outputs and Neg / Identity of them, in the main
     # graph and in an If branch, next to an initializer with the same bytes
     "node_output_const_hint": 0.10,
+    # FALSY attribute values (0, 0.0, "", empty lists) where the operator's own default differs or the attribute is
+    # required: as the DEFAULT of a function's attribute parameter with call sites that omit the attribute, as an
+    # explicit value at a call site whose parameter has another default, forwarded through a wrapper function, and on
+    # plain operator nodes next to a twin that relies on the schema default
+    "fn_attr_falsy": 0.22,
 }
 ALL_FEATURES: dict[str, float] = {**FEATURES, **EXTRA_FEATURES}
 _FN_FEATURES = ("fn", "fn_attr", "fn_default_used", "fn_nested", "fn_overload")
@@ -684,6 +689,9 @@ class _Builder:
                 g.opset_imports[n.domain] = 1
         decl = []
         for an, (kind, default) in attrs.items():
+            if kind in self._ATTR_KINDS_MORE:  # 's' / 'is' / 'fs' (fn_attr_falsy): the default is stored as given
+                decl.append(ir.Attr(an, self._ATTR_KINDS_MORE[kind], default))
+                continue
             ty = ir.AttributeType.FLOAT if kind == "f" else ir.AttributeType.INT
             decl.append(ir.Attr(an, ty, default if default is None else (float(default) if kind == "f" else int(default))))
         fn = _Fn(name or self.fresh("fn"), domain, overload, list(in_types), [(t.dt, t.shape) for t in outs], attrs)
@@ -2251,6 +2259,206 @@ class _Builder:
         if dec.random() < 0.5:
             self.observe += self.gen_if(m, rng, then_hook=lambda s: [chain(s, typed=True)[1]], out_types=[(dt, (2, 3))])
 
+    # ---- falsy attribute values ---------------------------------------------------------------------
+    _ATTR_KINDS_MORE = {"s": ir.AttributeType.STRING, "is": ir.AttributeType.INTS, "fs": ir.AttributeType.FLOATS}
+    _ATTR_TYPES = {"f": ir.AttributeType.FLOAT, "i": ir.AttributeType.INT, **_ATTR_KINDS_MORE}
+    # (kind, operator, attribute, the falsy value, other values).  The operator's own default for the attribute is not
+    # the falsy value (given behind '#'), or the attribute is required (Constant needs exactly one value_* form): a
+    # falsy value that is taken for "no value" gives other outputs or a model the checker rejects
+    _FALSY_USES = (
+        ("f", "LeakyRelu", "alpha", 0.0, (0.5, 0.25)),  # 0.01
+        ("f", "Elu", "alpha", 0.0, (0.5, 2.0)),  # 1.0
+        ("f", "ThresholdedRelu", "alpha", 0.0, (0.5, 2.0)),  # 1.0
+        ("f", "HardSigmoid", "alpha", 0.0, (0.5, 0.1)),  # 0.2
+        ("f", "HardSigmoid", "beta", 0.0, (0.25, 0.75)),  # 0.5
+        ("f", "Selu", "gamma", 0.0, (0.5, 2.0)),  # 1.0507
+        ("f", "Constant", "value_float", 0.0, (1.5, -0.75)),
+        ("i", "Softmax", "axis", 0, (1,)),  # -1
+        ("i", "LogSoftmax", "axis", 0, (1,)),  # -1
+        ("i", "Hardmax", "axis", 0, (1,)),  # -1
+        ("i", "Trilu", "upper", 0, (1,)),  # 1
+        ("i", "TopK", "largest", 0, (1,)),  # 1
+        ("i", "CumSum", "exclusive", 0, (1,)),  # 0 - observable as an explicit 0 where the parameter's default is 1
+        ("i", "CumSum", "reverse", 0, (1,)),  # 0
+        ("i", "Constant", "value_int", 0, (2, 5)),
+        ("s", "Constant", "value_string", "", ("a", "x y")),
+        ("is", "Constant", "value_ints", [], ([1, 2], [3])),
+        ("fs", "Constant", "value_floats", [], ([0.5], [1.0, 2.5])),
+    )
+
+    def _falsy_use(self, s: _Scope, rng, x: _TV, use, attr) -> _TV:
+        """One operator of ``_FALSY_USES`` applied to ``x`` (F32 (2,3)) in scope ``s`` with the attribute given as
+        ``attr`` (an ir.Attr - literal or reference - or None: not given).  Returns the value that shows the effect:
+        F32 (2,3) / (2,1) for the element-wise operators, a STRING scalar, or a (1,) tensor that holds length + sum of
+        a list-valued Constant (whose own shape depends on the attribute value and is therefore left undeclared)."""
+        kind, op, an = use[:3]
+        attrs = {an: attr} if attr is not None else {}
+        typed = s.kind == "branch"
+        T = (F32, (2, 3))
+        if op != "Constant":
+            if op == "TopK":
+                k = self._hide(s, [self.const(s, rng, I64, (1,), np.array([1], np.int64), form="value_ints")])[0]
+                outs = self.emit(s, op, [x, k], attrs, [(F32, (2, 1)), (I64, (2, 1))], typed=typed)
+                self._hide(s, outs)
+                return outs[0]
+            if op == "CumSum":
+                ax = self._hide(s, [self.const(s, rng, I64, (), np.array(1, np.int64), form="value_int")])[0]
+                return self.emit(s, op, [x, ax], attrs, [T], typed=typed)[0]
+            return self.emit(s, op, [x], attrs, [T], typed=typed)[0]
+        if kind == "f":
+            c = self._hide(s, self.emit(s, op, [], attrs, [(F32, ())]))[0]
+            return self.emit(s, "Add", [x, c], None, [T], typed=typed)[0]
+        if kind == "i":
+            c = self._hide(s, self.emit(s, op, [], attrs, [(I64, ())]))[0]
+            cf = self._hide(s, self.emit(s, "Cast", [c], {"to": int(F32.value)}, [(F32, ())]))[0]
+            return self.emit(s, "Add", [x, cf], None, [T], typed=typed)[0]
+        if kind == "s":
+            c = self._hide(s, self.emit(s, op, [], attrs, [(STR, ())], untyped=True))[0]
+            return self._hide(s, self.emit(s, "Identity", [c], None, [(STR, ())], typed=typed))[0]
+        dt = I64 if kind == "is" else F32
+        c = self._hide(s, self.emit(s, op, [], attrs, [(dt, (0,))], untyped=True))[0]
+        n = self._hide(s, self.emit(s, "Shape", [c], None, [(I64, (1,))]))[0]
+        t = self._hide(s, self.emit(s, "ReduceSum", [c], {"keepdims": 1}, [(dt, (1,))]))[0]
+        if dt != I64:
+            n = self._hide(s, self.emit(s, "Cast", [n], {"to": int(dt.value)}, [(dt, (1,))]))[0]
+        return self._hide(s, self.emit(s, "Add", [n, t], None, [(dt, (1,))], typed=typed))[0]
+
+    @staticmethod
+    def _falsy_out_type(use):
+        kind, op = use[:2]
+        if op == "TopK":
+            return (F32, (2, 1))
+        if op == "Constant" and kind == "s":
+            return (STR, ())
+        if op == "Constant" and kind in ("is", "fs"):
+            return (I64 if kind == "is" else F32, (1,))
+        return (F32, (2, 3))
+
+    def plant_fn_attr_falsy(self, rng):
+        """Attribute values that are FALSY in Python (0, 0.0, "", empty lists) and mean something else than "absent".
+        A function F declares 1-3 attribute parameters, each used in its body (sometimes inside an If branch) by
+        reference on an operator attribute of ``_FALSY_USES``; a parameter's default is the falsy value, another value,
+        or there is none.  Call sites (main graph, one of them sometimes inside a branch) omit the parameters that have
+        a default, give the falsy value explicitly, or mix.  Sometimes a wrapper W calls F - omitting, with the falsy
+        literal, or forwarding its own parameter (same or another name; W's default falsy / other / none) - and is
+        itself called with the parameter omitted or falsy.  Also plain operator nodes with the falsy literal next to a
+        twin that leaves the attribute to the operator's default.  Every effect is a function / graph output."""
+        dec = random.Random(rng.random())  # variant decisions: independent of pool sizes
+        m = self.main
+        T = (F32, (2, 3))
+        mk = lambda name, kind, val: ir.Attr(name, self._ATTR_TYPES[kind], list(val) if isinstance(val, (list, tuple)) else val)  # noqa: E731
+        n_params = dec.choice([1, 2, 2, 3])
+        uses = dec.sample(self._FALSY_USES, n_params)
+        if dec.random() < 0.5 and not any(u[1] != "Constant" for u in uses):
+            uses[0] = dec.choice([u for u in self._FALSY_USES if u[1] != "Constant"])
+        # the first parameter always has the falsy default: it is one whose falsy value is not the operator's default
+        uses.sort(key=lambda u: u[1] == "CumSum")
+        if uses[0][1] == "CumSum":
+            uses[0] = dec.choice([u for u in self._FALSY_USES if u[1] != "CumSum"])
+        words = dec.sample(["alpha", "axis", "k", "p", "q", "flag", "v", "mode", "gain", "s"], n_params)
+        params = []  # (name, use, default)
+        for i, (an, use) in enumerate(zip(words, uses)):
+            r = dec.random()
+            if use[1] == "CumSum":  # (0 is the operator's default: observable as an explicit 0 over another default)
+                default = dec.choice(use[4]) if r < 0.85 else None
+            else:
+                default = use[3] if (i == 0 or r < 0.5) else (dec.choice(use[4]) if r < 0.85 else None)
+            params.append((an, use, default))
+        in_branch = dec.random() < 0.2 and any(self._falsy_out_type(u) == T for _, u, _ in params)
+        in_types = [T] + ([(BOOL, ())] if in_branch else [])
+
+        def f_body(s):
+            x = s.inputs[0]
+            refs = {an: ir.RefAttr(use[2], an, self._ATTR_TYPES[use[0]]) for an, use, _ in params}
+            inside = [(an, use) for an, use, _ in params if in_branch and self._falsy_out_type(use) == T]
+            got = {}
+            if inside:
+                hooks = [lambda b: [self._falsy_use(b, rng, x, use, refs[an]) for an, use in inside],
+                         lambda b: [self.emit(b, o, [x], typed=True)[0] for o, _ in zip(("Neg", "Abs", "Relu"), inside)]]
+                if dec.random() < 0.3:
+                    hooks.reverse()
+                graphs = []
+                for which, hook in zip(("then", "else"), hooks):
+                    child = _Scope("branch", s)
+                    outs = hook(child)
+                    for t in outs:
+                        self._set_type(t.v, t.dt, t.shape, required=True)
+                    graphs.append(self.make_graph(child, outs, self.fresh(which + "_g")))
+                res = self.emit(s, "If", [s.inputs[1]], {"then_branch": graphs[0], "else_branch": graphs[1]}, [T] * len(inside))
+                got = {an: t for (an, _), t in zip(inside, res)}
+            return [got[an] if an in got else self._falsy_use(s, rng, x, use, refs[an]) for an, use, _ in params]
+        f = self.gen_function(rng, in_types=in_types, body_hook=f_body,
+                              attrs={an: (use[0], None if d is None else (list(d) if isinstance(d, (list, tuple)) else d)) for an, use, d in params})
+        x = self._x(rng)
+        extra = [self.bool_scalar(m, rng)] if in_branch else []
+
+        def site_values(fn_params, style) -> dict:
+            """name -> ir.Attr or None (omitted).  A parameter without default is always given."""
+            vals = {}
+            for an, use, default in fn_params:
+                if style == "omit":
+                    pick = "omit"
+                elif style == "falsy":
+                    pick = "falsy"
+                else:
+                    pick = dec.choice(["omit", "falsy", "other"])
+                if pick == "omit" and default is None:
+                    pick = dec.choice(["falsy", "other"])
+                vals[an] = None if pick == "omit" else mk(an, use[0], use[3] if pick == "falsy" else dec.choice(use[4]))
+            return vals
+
+        def call(sc, fn, fn_params, style, ins, typed=False):
+            outs = self.gen_call(sc, rng, fn, attr_values=site_values(fn_params, style), inputs=ins, typed=typed) or []
+            return self._hide(sc, outs)
+        styles = ["omit", "falsy"] + dec.sample(["mixed", "mixed", "omit"], dec.choice([0, 1, 1, 2]))
+        dec.shuffle(styles)
+        branch_site = dec.random() < 0.25
+
+        def other_branch(b):
+            outs = []
+            for dt, shape in f.out_types:
+                c = self.str_const(b, rng, "other", "value_string") if dt == STR else self._hide(b, [self.const(b, rng, dt, shape)])[0]
+                outs += self._hide(b, self.emit(b, "Identity", [c], None, [(dt, shape)], typed=True))
+            return outs
+        for k, style in enumerate(styles):
+            if branch_site and k == 0:
+                self.observe += self._hide(m, self.gen_if(
+                    m, rng, then_hook=lambda b, style=style: call(b, f, params, style, [x] + extra, typed=True) or other_branch(b),
+                    else_hook=other_branch, out_types=list(f.out_types)))
+            else:
+                self.observe += call(m, f, params, style, [x] + extra)
+        if dec.random() < 0.5:
+            # the wrapper: per parameter of F either forwarded from a parameter of its own, left to F's default, or
+            # given as the falsy literal
+            w_params, forwarded = [], {}
+            for an, use, default in params:
+                r = dec.random()
+                if r < 0.55 or default is None:
+                    wn = an if dec.random() < 0.4 else "w_" + an
+                    r2 = dec.random()
+                    wd = use[3] if (r2 < 0.55 and use[1] != "CumSum") else (dec.choice(use[4]) if r2 < 0.85 else None)
+                    w_params.append((wn, use, wd))
+                    forwarded[an] = ir.RefAttr(an, wn, self._ATTR_TYPES[use[0]])
+                elif r < 0.8:
+                    forwarded[an] = None
+                else:
+                    forwarded[an] = mk(an, use[0], use[3])
+            pre = dec.choice(["Neg", "Abs"])
+
+            def w_body(s):
+                xx = s.inputs[0]
+                t = self.emit(s, pre, [xx])[0]
+                return self._hide(s, self.gen_call(s, rng, f, attr_values=forwarded, inputs=[t] + list(s.inputs[1:])))
+            w = self.gen_function(rng, in_types=in_types, body_hook=w_body,
+                                  attrs={wn: (use[0], None if d is None else (list(d) if isinstance(d, (list, tuple)) else d)) for wn, use, d in w_params})
+            for style in dec.sample(["omit", "falsy", "mixed"], dec.choice([1, 2, 2])):
+                self.observe += call(m, w, w_params, style, [x] + extra)
+        # plain operator nodes: the falsy literal next to a twin without the attribute (the operator's default applies)
+        plain = [u for u in self._FALSY_USES if u[1] != "Constant" and u[1] != "CumSum"]
+        for use in dec.sample(plain, dec.choice([0, 1, 1, 2])):
+            self.observe.append(self._hide(m, [self._falsy_use(m, rng, x, use, mk(use[2], use[0], use[3]))])[0])
+            self.observe.append(self._hide(m, [self._falsy_use(m, rng, x, use, None)])[0])
+
     # ---- assembly --------------------------------------------------------------------------------
     PLANT_ORDER = [
         "consts_all_forms", "dup_expr", "near_dup_attr", "near_dup_outcount", "near_dup_default", "signed_zero",
@@ -2262,7 +2470,7 @@ class _Builder:
         "fn_attr_forward_renamed", "fn_scope_name_reuse", "fn_subgraph_formal_name_reuse",
         "const_strings", "string_inits", "fn_optional_inputs", "fn_foreign_opset", "random_twins", "random_twins_unlisted",
         "symbolic_dims", "subgraph_init_name_family", "subgraph_init_returned_name_family", "fn_inner_name_family",
-        "input_const_hint", "formal_input_const_hint", "node_output_const_hint", "out_alias_input", "out_init", "out_dup",
+        "input_const_hint", "formal_input_const_hint", "node_output_const_hint", "fn_attr_falsy", "out_alias_input", "out_init", "out_dup",
     ]
 
     def build(self) -> tuple[ir.Model, dict]:
